@@ -304,6 +304,7 @@ pub struct ConcCase {
 }
 #[derive(Default)]
 pub struct ConcStats {
+    traces: std::collections::HashSet<u64>,
     schedules: u64,
     preempted: u64,
     answers: u64,
@@ -400,6 +401,7 @@ async fn conc_schedule<TC: Tcfg>(case: &ConcCase, sc: &ConcScenario, policy: &Po
     st.schedules += 1;
     if trace.preemptions > 0 {
         st.preempted += 1;
+        st.traces.insert(fp(&trace.steps));
     }
     let what0 = format!("schedule {} (actor per step {:?})", crate::sched::show_policy(policy, trace.steps.len()), trace.steps);
     ensure!(!trace.deadlock, "sched-deadlock", "{what0}: actors did not finish");
@@ -527,8 +529,14 @@ pub fn conc_check(case: &ConcCase, ctx: &mut Ctx) -> R {
     ctx.count("non_error_answers", st.ok_answers);
     ctx.count("answers_naming_an_older_epoch", st.answers_not_latest);
     ctx.count("writer_publishes_that_failed(not judged here)", st.writer_failed);
+    if ctx.counting {
+        ctx.evals += st.schedules.saturating_sub(1);
+    }
+    let cfp = fp_json(&(&case.hist, case.init, &case.readers, case.writer_cached, case.cfg));
+    for t in &st.traces {
+        ctx.nontrivial(fp(&(cfp, *t)));
+    }
     if st.preempted > 0 {
-        ctx.nontrivial(fp_json(case));
         ctx.sample(&serde_json::json!({"cfg": case.cfg, "hist": case.hist, "init": case.init, "readers": case.readers, "writer_cached": case.writer_cached, "poller": case.poller, "n_random_schedules": case.schedules.len(), "enumerate": case.enumerate}));
     }
     r
@@ -566,7 +574,7 @@ pub fn run(eng: &mut Engine) {
     );
     eng.prop_part(
         "concurrent",
-        "one writer actor (1-5 publishes) interleaved with 1-3 reader actors on a clone of the writer, cached/uncached read-only instances and a second cached directory (optionally the change poller in the background, explicit flushes), under the non-preemptive schedule, strided single and double preemptions and generated random schedules; answers judged as above, then every instance is queried again after the concurrent phase; non-trivial = scenario run under a preempting schedule; distinct by case",
+        "one writer actor (1-5 publishes) interleaved with 1-3 reader actors on a clone of the writer, cached/uncached read-only instances and a second cached directory (optionally the change poller in the background, explicit flushes), under the non-preemptive schedule, strided single and double preemptions and generated random schedules; answers judged as above, then every instance is queried again after the concurrent phase; evaluations = schedules executed; non-trivial = schedule with at least one preemption, distinct by (scenario, actor-per-step trace)",
         eng.tier.pick(64, 600),
         move || conc_strategy(thorough),
         conc_check,
